@@ -74,7 +74,35 @@ def r1_pending(ctx):
   ctx.ob('C06.R1', j, 'jitter expands with leave_pending=True', len(ex) == 1 and [U(x) for x in ex[0].args] == ['True'], 'jitter expansion call: %s' % [U(e) for e in ex], why, nontrivial=False)
 
 
+def r2_floor(ctx):
+  """An aperture whose lower bound is 0 starts empty; an empty heap answers NoMembersError without calling _OnGet,
+  so the load signal never moves and the aperture can never grow although idle members exist."""
+  prog = ctx.prog
+  init = prog.func(A, 'ApertureBalancerSink.__init__')
+  why = ('with min_size 0 every member is held idle, every request fails with NoMembersError before the load signal is touched, '
+         'and the "empty aperture counts as max_load" growth branch is unreachable: the active set never grows although idle members remain')
+  asg = [st for st in walk_no_nested(init.node) if isinstance(st, ast.Assign) and U(st.targets[0]) == 'self._min_size']
+  ok = False
+  what = '_min_size assigned %d times' % len(asg)
+  if len(asg) == 1:
+    v = asg[0].value
+    what = '_min_size = %s' % U(v)
+    if isinstance(v, ast.Call) and isinstance(v.func, ast.Name) and v.func.id == 'max' and len(v.args) == 2:
+      consts = [a.value for a in v.args if isinstance(a, ast.Constant) and isinstance(a.value, int)]
+      ok = bool(consts) and max(consts) >= 1
+    if not ok:
+      # or: configurations below 1 are rejected before the assignment
+      src = U(v)
+      for ev, ex in enum_paths(ctx, init):
+        if ex[0] == 'raise':
+          fs = FACTS(ev)
+          if any(c.replace(' ', '') in ('%s<1' % src, '%s<=0' % src, 'not%s' % src) and t for c, t in fs):
+            ok = True
+  ctx.ob('C06.R2', init, 'the aperture never has a lower bound of zero members (min_size clamped to >= 1 or rejected)', ok, what, why)
+
+
 def r2(ctx):
+  r2_floor(ctx)
   prog = ctx.prog
   adj = prog.func(A, 'ApertureBalancerSink._AdjustAperture')
   why = ('load-driven growth never takes the active set beyond max_size and contraction never leaves fewer than min(min_size, members) active: the '
@@ -138,9 +166,14 @@ def r2(ctx):
     ctx.ob('C06.R2', a, 'a joiner becomes active iff fewer than min_size healthy members are active', bool(sup) == low, 'activation under facts %s' % fs,
            'contraction never leaves fewer than min(min_size, members) active: joins must refill the aperture up to min_size')
   init = prog.func(A, 'ApertureBalancerSink.__init__')
-  t = U(init.node).replace(' ', '')
-  ok = all(x in t for x in ('self._min_size=sink_properties.min_size', 'self._max_size=sink_properties.max_size', 'self._min_load=sink_properties.min_load', 'self._max_load=sink_properties.max_load'))
-  ctx.ob('C06.R2', init, 'bounds come from the sink properties', ok, '__init__ changed', why, nontrivial=False)
+  props = init.params[2]
+  bad = []
+  for nm in ('min_size', 'max_size', 'min_load', 'max_load'):
+    asg = [st for st in walk_no_nested(init.node) if isinstance(st, ast.Assign) and U(st.targets[0]) == 'self._' + nm]
+    srcs = [x for st in asg for x in ast.walk(st.value) if isinstance(x, ast.Attribute) and U(x.value) == props]
+    if len(asg) != 1 or [x.attr for x in srcs] != [nm]:
+      bad.append(nm)
+  ctx.ob('C06.R2', init, 'bounds come from the sink properties', not bad, 'bounds not taken from the matching property: %s' % bad, why, nontrivial=False)
 
 
 def r3(ctx):
@@ -166,6 +199,23 @@ def r3(ctx):
         seen['load_text'] = res
   ctx.ob('C06.R3', adj, 'load = EMA(monotonic time, outstanding total) / active size; an empty aperture counts as max_load', seen.get('zero') is True and seen.get('load') is True,
          'load signal: %s' % seen, why)
+  # Ema.Update(ts, sample) weights `sample` by the time elapsed since the previous update.  The number of outstanding
+  # requests is a step function: the level that held during that interval is the total *before* this adjustment.
+  n_upd = 0
+  for ev, ex in enum_paths(ctx, adj):
+    upd = [i for i, e in enumerate(ev) if e.kind == 'call' and U(e.node.func) == 'self._ema.Update']
+    wr = [i for i, e in enumerate(ev) if e.kind == 'stmt' and isinstance(e.node, (ast.AugAssign, ast.Assign))
+          and U(e.node.target if isinstance(e.node, ast.AugAssign) else e.node.targets[0]) == 'self._total']
+    if not upd:
+      continue
+    n_upd += 1
+    smp = U(ev[upd[0]].node.args[1]) if len(ev[upd[0]].node.args) == 2 else None
+    ok = len(upd) == 1 and len(wr) == 1 and smp == 'self._total' and upd[0] < wr[0]
+    ctx.ob('C06.R3', adj, 'the EMA is fed the level that held during the elapsed interval (update before the total changes)', ok,
+           'EMA sample %s, update at event %s, total written at %s' % (smp, upd, wr),
+           'feeding the new total gives the level after the event the weight of the time before it: N closed-loop callers read as N-1 '
+           '(no growth at load 2.0 >= max_load 1.5), sparse short requests read as 1 (no contraction)')
+  ctx.ob('C06.R3', adj, 'every adjustment updates the EMA', n_upd >= 1, 'no path updates the EMA', why)
   nd = prog.func(A, 'ApertureBalancerSink._OnNodeDown')
   seen = {}
   for ev, ex in enum_paths(ctx, nd):
